@@ -249,7 +249,7 @@ pub mod ast {
 //@ lift crates/air-lib/air-parser/src/ast/values.rs :: struct CanonStream
 //@ derive
 //@ end
-    pub struct ResolvableToPeerIdVariable<'i> { pub ph: PhantomData<&'i u8> }
+    pub struct ResolvableToPeerIdVariable<'i> { pub opaque_payload: u64, pub ph: PhantomData<&'i u8> }
 //@ lift crates/air-lib/air-parser/src/ast/instructions.rs :: struct Canon
 //@ derive
 //@ end
